@@ -24,6 +24,7 @@ RULE_BLOCKS = [
     ('Plain', ['match: regex("A|B")', 'category: Cat', 'subcategory: Sub']),
 ]
 VIEW_BLOCKS = [
+    ('Top #1', ['description: Stores ranked #1 to #5 by total', 'filter: merchant == "COSTCO WHSE #12" or total > 5']),
     ('Big', ['description: Large ones', 't = 100', 'filter: total > t']),
     ('Food', ['filter: category == "Food"']),
     ('Every Month', ['filter: months >= 6 and cv < 0.3', 'lim = 3']),
@@ -68,7 +69,12 @@ def variants(lines, seed):
 
 
 def check_layout(kind, lines, view_fn, err):
-    base = view_fn('\n'.join(lines))
+    try:
+        base = view_fn('\n'.join(lines))
+    except err as e:
+        O.case((kind, 'plain', len(lines)))
+        O.fail('C17.%s.valid_file_rejected' % kind, {'kind': kind, 'text': '\n'.join(lines)}, 'the sections of the file, one per header', '%s' % e, 'the loader on a valid file')
+        return
     for name, v in variants(lines, O.seed):
         O.case((kind, name, len(lines)))
         w = {'kind': kind, 'variant': name, 'text': '\n'.join(v)}
@@ -84,7 +90,11 @@ def check_layout(kind, lines, view_fn, err):
 
 def check_property_order(kind, header, blocks, view_fn):
     """relative order of a section's distinct properties (let: lines and view variables keep their order)"""
-    base = view_fn('\n'.join(build(header, blocks)))
+    try:
+        base = view_fn('\n'.join(build(header, blocks)))
+    except Exception as e:
+        O.fail('C17.%s.valid_file_rejected' % kind, {'kind': kind, 'text': '\n'.join(build(header, blocks))}, 'the sections of the file, one per header', '%s' % e, 'the loader on a valid file')
+        return
     for bi, (name, props) in enumerate(blocks):
         movable = [p for p in props if not p.startswith(('let:',)) and '=' not in p.split(':')[0]]
         fixed = [p for p in props if p not in movable]
@@ -235,6 +245,8 @@ STATED_TAGS = [
     ("{'}, {'}, e", ["{'}, {'}", 'e']),
     ('first, {split(description, "\\"", 0)}, q', ['first', '{split(description, "\\"", 0)}', 'q']),
     (' spaced ,  , {source} ,', ['spaced', '{source}']),
+    ('{strip_suffix(description, "\\\\")}, b', ['{strip_suffix(description, "\\\\")}', 'b']),       # the string literal is one escaped backslash: the quote after it closes it
+    ('{split(description, "\\\\\\"", 0)}, b', ['{split(description, "\\\\\\"", 0)}', 'b']),     # an escaped backslash, then an escaped quote
     ('a), b, c', ['a)', 'b', 'c']),            # a stray closing parenthesis closes nothing
     ('(open, b', ['(open, b']),                # an opening one keeps what follows together
 ]
